@@ -983,8 +983,14 @@ func (r *Runner) ensureStorage() error {
 	if r.Runstackpos < r.runtrackcount*4 {
 		doubleIntSlice(&r.runstack, &r.Runstackpos)
 	}
-	if r.Runtrackpos < r.runtrackcount*4 && !r.growTrack() {
-		return ErrBacktrackingStackLimit
+	if r.Runtrackpos < r.runtrackcount*4 {
+		// growTrack may be cut short by the stack limit. Unless the free space
+		// is back above the threshold the next instructions could overrun the
+		// stack, and whether a match fails would depend on how far a reused
+		// runner's stack had already been grown by an earlier match.
+		if !r.growTrack() || r.Runtrackpos < r.runtrackcount*4 {
+			return ErrBacktrackingStackLimit
+		}
 	}
 	return nil
 }
